@@ -35,6 +35,7 @@ or a tolerance game whose exact margin to the boundary is below 2^-20.  Distinct
 from __future__ import annotations
 
 import itertools
+import os
 from fractions import Fraction
 
 import numpy as np
@@ -588,6 +589,7 @@ def run(tier: str, budget: Budget, rnd, arg) -> StreamResult:
         sub = Budget(min(budget.left(), total * share + 1.0))
         f(res, script, post, tier, sub, rnd)
     part_aliasing(res, script, post, tier, budget, rnd)      # last: it deliberately scribbles on returned arrays
+    part_fresh_order(res, tier, budget, rnd)
     for b in script.diff(_compare):
         res.disagree("bits answer", {k: b[k] for k in ("line", "impl", "model", "ctx", "kind")})
     outs = script.outs
@@ -664,6 +666,10 @@ def replay(prop: str, payload: dict):
         if (B in A) != (S(b) <= S(a)):
             bad.append("in")
         return bool(bad), f"operators disagreeing with set semantics on ({a}, {b}): {bad}"
+    if "order" in inp:
+        bad = fresh_order_run(inp["order"])
+        return bool(bad), (f"fresh interpreter, player counts used in the order {inp['order']}: {bad[:3]}" if bad else
+                           f"fresh interpreter, order {inp['order']}: every coalition agrees with finite-set semantics")
     if "coalition" in inp and "n" in inp:
         bad = coalition_oracle(inp["n"], inp["coalition"])
         return bool(bad), (f"coalition {inp['coalition']} on {inp['n']} players: operations disagreeing with finite-set "
@@ -706,3 +712,61 @@ def coalition_oracle(n: int, c: int) -> list[str]:
     if [x.id for x in exclude_coalition(C, map(Coalition, range(N)))] != [x for x in range(N) if not (S(x) & sc)]:
         bad.append("exclude_coalition")
     return bad
+
+
+# ----------------------------------------------------------------------------------------------
+# first-use order: module-level state (tables extended on demand, memoised structures) must not depend on the ORDER in
+# which player counts are first used within one interpreter.  The in-process parts above visit n in ascending order, so
+# this oracle runs the finite-set oracle in FRESH interpreters that start at a large n / jump / descend.
+
+FRESH_ORDERS_QUICK = [[10], [10, 9, 8], [7, 10, 9], [9, 4, 10]]
+FRESH_ORDERS_THOROUGH = FRESH_ORDERS_QUICK + [[10, 8], [8, 10], [6, 9], [9, 6, 10, 3], [5, 10, 7]]
+
+
+def fresh_order_run(order: list[int]) -> list[dict]:
+    """in a fresh interpreter: for n in `order`, the finite-set oracle of every coalition of n players"""
+    import json
+    import subprocess
+    import sys
+    from common import REPO
+    env = dict(os.environ, PYTHONPATH=f"{REPO}:{os.path.dirname(os.path.abspath(__file__))}", PYTHONDONTWRITEBYTECODE="1")
+    p = subprocess.run([sys.executable, os.path.abspath(__file__), "--fresh-order", ",".join(map(str, order))],
+                       capture_output=True, text=True, env=env, timeout=900)
+    for line in p.stdout.splitlines():
+        if line.startswith("FRESH "):
+            return json.loads(line[6:])
+    return [{"order": order, "crashed": (p.stderr or p.stdout)[-400:]}]
+
+
+def part_fresh_order(res, tier, budget, rnd) -> None:
+    from concurrent.futures import ThreadPoolExecutor
+    orders = FRESH_ORDERS_QUICK if tier == "quick" else FRESH_ORDERS_THOROUGH
+    with ThreadPoolExecutor(max_workers=4) as ex:
+        outs = list(ex.map(fresh_order_run, orders))
+    for order, bad in zip(orders, outs):
+        res.evaluations += 1
+        res.count("fresh-order:" + "-".join(map(str, order)))
+        if bad and "crashed" in bad[0]:
+            res.violation(f"a fresh interpreter visiting player counts in the order {order} crashed: {bad[0]['crashed'][-200:]}",
+                          {"order": order}, key="bits:first-use-order:crash")
+        elif bad:
+            b = bad[0]
+            res.violation(f"in a fresh interpreter that uses player counts in the order {order}, coalition {b['coalition']} of {b['n']} players: "
+                          f"{b['bad']} disagree with finite-set semantics ({len(bad)} coalitions affected)",
+                          {"order": order, "n": b["n"], "coalition": b["coalition"], "bad": b["bad"]}, key="bits:first-use-order")
+        else:
+            res.nontrivial.add(("fresh-order", tuple(order)))
+
+
+if __name__ == "__main__":
+    import json
+    import os
+    import sys
+    if len(sys.argv) == 3 and sys.argv[1] == "--fresh-order":
+        out = []
+        for n_ in [int(x) for x in sys.argv[2].split(",")]:
+            for c_ in range(2 ** n_):
+                bad_ = coalition_oracle(n_, c_)
+                if bad_:
+                    out.append({"n": n_, "coalition": c_, "bad": bad_})
+        print("FRESH " + json.dumps(out[:50]))
